@@ -1,7 +1,16 @@
+#[cfg(not(feature = "verif"))]
 use std::{
     sync::atomic::{AtomicU8, AtomicU32, AtomicU64, Ordering},
     time::{Duration, SystemTime, UNIX_EPOCH},
 };
+#[cfg(feature = "verif")]
+use std::{
+    sync::atomic::{AtomicU8, AtomicU32, AtomicU64, Ordering},
+    time::Duration,
+};
+
+#[cfg(feature = "verif")]
+use sierradb::verif::{SystemTime, UNIX_EPOCH};
 
 #[derive(Debug, Clone, Copy, PartialEq)]
 #[repr(u8)]
